@@ -162,3 +162,19 @@ Proof.
   assert (Hq : 0 < inject_Z (Z.of_nat n)) by (change 0 with (inject_Z 0); rewrite <- Zlt_Qlt; lia).
   rewrite H0 in Hq. exact (Qlt_irrefl 0 Hq).
 Qed.
+
+(* the integrated intensity depends on the SET of band pixels only: neither on the order in which the walk produced them nor on how
+   often a pixel was produced *)
+From Coq Require Import Permutation.
+Lemma qsum_perm (l1 l2 : list Q) : Permutation l1 l2 -> fold_right Qplus 0 l1 == fold_right Qplus 0 l2.
+Proof. induction 1 as [|x l1 l2 _ IH|x y l|l1 l2 l3 _ IH1 _ IH2]; [reflexivity| | |].
+  - cbn [fold_right]. rewrite IH. reflexivity.
+  - cbn [fold_right]. ring.
+  - rewrite IH1. exact IH2. Qed.
+Theorem integrated_depends_on_the_pixel_set img band band' len : (forall p, In p band <-> In p band') ->
+  integrated img band len == integrated img band' len.
+Proof. intros H. unfold integrated.
+  assert (P : Permutation (dedup_pix band) (dedup_pix band')).
+  { apply NoDup_Permutation; [apply band_pixels_distinct|apply band_pixels_distinct|]. intros p.
+    rewrite (proj2 (band_pixels_distinct band) p), (proj2 (band_pixels_distinct band') p). apply H. }
+  rewrite (qsum_perm _ _ (Permutation_map (fun q => img (fst q) (snd q)) P)). reflexivity. Qed.
